@@ -138,7 +138,7 @@ func genMaterials() (map[string]*material, error) {
 		}
 		add(n, k, &k.PublicKey)
 	}
-	for _, n := range []string{"edA", "edEvil"} {
+	for _, n := range []string{"edA", "edB", "edEvil"} {
 		pub, priv, err := ed25519.GenerateKey(rand.Reader)
 		if err != nil {
 			return nil, err
@@ -371,6 +371,14 @@ func buildKeySets(m map[string]*material, p *pki, now time.Time) (map[string]*ke
 	add("empty", "ok")
 	add("http500", "http500", e("f-es256", "k-es256", "ES256", "p256A"))
 	add("garbage", "garbage", e("g-es256", "k-es256", "ES256", "p256A"))
+	// one key set per issuer ("tenant") behind an endpoint templated with the token issuer: the tenants use the same
+	// key ids for different keys (sig-2 of tenant c even for another algorithm), plus one key id of their own
+	add("ten-a", "ok", e("a-sig1", "sig-1", "ES256", "p256A"), e("a-sig2", "sig-2", "PS256", "rsaA"), e("a-sig3", "sig-3", "EdDSA", "edA"),
+		e("a-own", "a-only", "ES384", "p384A"))
+	add("ten-b", "ok", e("b-sig1", "sig-1", "ES256", "p256B"), e("b-sig2", "sig-2", "PS256", "rsaB"), e("b-sig3", "sig-3", "EdDSA", "edB"),
+		e("b-own", "b-only", "ES512", "p521A"))
+	add("ten-c", "ok", e("c-sig1", "sig-1", "ES256", "p256X"), e("c-sig2", "sig-2", "ES256", "p256Y"))
+	add("ten-unknown", "http404")
 	// the attacker's own key set (never configured anywhere; referenced from jku headers only)
 	add("evil", "ok", e("evil-rs", "k-rs256", "RS256", "rsaEvil"), e("evil-es", "k-es256", "ES256", "p256Evil"), e("evil-ed", "k-ed", "EdDSA", "edEvil"))
 	return sets, nil
